@@ -532,7 +532,8 @@ func TestProp(t *testing.T) {
 			"Karney-Krueger order-6 transverse Mercator/UTM and a single exact Helmert chain, within 5 mm. (table) every proj4js ellipsoid, datum, prime-meridian and unit name: " +
 			"exported A, B, Rf, Es, DatumParams, FromGreenwich, ToMeter equal proj4js's values (2 ulp) - exhaustive. Non-trivial = datums differ with a shift, or a series projection " +
 			"(tmerc/utm/eqdc), or a non-metre unit; all ref and table cases. Distinct by case hash." +
-			" Round 9: shift-free pairs on nearly identical ellipsoids (e^2 a few 1e-11 to 1e-10 apart).",
+			" Round 9: shift-free pairs on nearly identical ellipsoids (e^2 a few 1e-11 to 1e-10 apart)." +
+			" Round 11: one named datum in eight is written after '+nadgrids=@null'.",
 		Assumptions: []string{"proj4js 2.3.12 as vendored in the repository is the oracle where the property makes it one", "V8 and Go libm differ by ulps, far below 0.1 mm",
 			"if node is unavailable the differential part replays the committed golden vectors only (stated in notes.proj4js)"},
 		Gen:   gen,
